@@ -198,6 +198,7 @@ struct LogFile {
     msgs: Vec<GenMsg>,
     big: u64, // > 0: a big periodic log of that many messages (only frame summaries are recorded)
     orig: Arc<Vec<GenMsg>>, // the generated messages (= msgs; for big logs msgs stays empty: not written into the trace)
+    pad: Arc<String>,       // appended to the text of every message when the file was written (long payloads), not kept in orig
 }
 
 #[derive(Clone, Debug)]
@@ -249,6 +250,9 @@ struct SrvCase {
     searches: Vec<(u64, u64, Vec<F>)>, // (start, page size, search filters): paged until next = null
     lookups: Vec<(String, u64)>,       // ("index"|"time", value)
     pred: Value,                       // TLC's prediction (drift statistics only)
+    sort: bool,                        // open with "sort":true (stream order = by calculated time instead of by index)
+    stall_ms: u64,                     // the client does not read for that long right after the reply announcing the stream
+    stall_mid: bool,                   // ... and again after every window change (mid-stream)
     binary: bool,                      // binary DltMsgs frames, else text frames `stream:<id> msg(<pos>):<header text>`
     extreme: bool,                     // extreme numeric parameters: runs alone on a dedicated server process (restarted if it dies)
 }
@@ -269,6 +273,7 @@ struct Sess {
     evs: Vec<Value>,
     big: bool,
     orig: Arc<Vec<GenMsg>>,
+    pad: Arc<String>,
     txt: Option<TxtRun>,
     file_msgs: u64,
     data_frames: u64, // DltMsgs / StreamInfo frames seen (for the idle detection)
@@ -320,7 +325,7 @@ impl Sess {
             }
         };
         self.data_frames += 1;
-        let intact = self.orig.get(idx as usize).map(|g| g.t_ms * 10 == ts && g.mcnt as u64 == mcnt && g.ecu == e && g.apid == a && g.ctid == c).unwrap_or(false) as u64;
+        let intact = self.orig.get(idx as usize).map(|g| g.ts() == ts && g.mcnt as u64 == mcnt && g.ecu == e && g.apid == a && g.ctid == c).unwrap_or(false) as u64;
         match self.txt.as_mut() {
             Some(r) if r.id == id => {
                 r.n += 1;
@@ -361,8 +366,8 @@ impl Sess {
                                 .iter()
                                 .filter(|m| {
                                     self.orig.get(m.index as usize).map(|g| {
-                                        m.reception_time == BASE_US + g.t_ms * 1000 && m.timestamp_dms as u64 == g.t_ms * 10 && m.mcnt == g.mcnt
-                                            && char4_str(m.ecu) == g.ecu && char4_str(m.apid) == g.apid && char4_str(m.ctid) == g.ctid && m.payload_as_text == g.text
+                                        m.reception_time == BASE_US + g.t_ms * 1000 && m.timestamp_dms as u64 == g.ts() && m.mcnt == g.mcnt
+                                            && char4_str(m.ecu) == g.ecu && char4_str(m.apid) == g.apid && char4_str(m.ctid) == g.ctid && m.payload_as_text.len() == g.text.len() + self.pad.len() && m.payload_as_text.starts_with(g.text.as_str()) && m.payload_as_text.ends_with(self.pad.as_str())
                                     }).unwrap_or(false)
                                 })
                                 .count();
@@ -461,7 +466,7 @@ fn parse_ok_json(t: &str) -> Option<(u64, Value)> {
 fn run_srv_case(port: u16, case: usize, cs: &SrvCase, logs: &[LogFile], logline: &[usize]) -> Vec<Value> {
     let lf = &logs[cs.log];
     let n = if lf.big > 0 { lf.big } else { lf.msgs.len() as u64 };
-    let mut evs = vec![json!({"ev":"reset","case":case,"hdr":{"src":cs.src,"logline":logline[cs.log],"n":n,"big":lf.big,"kind":cs.kind,"late":cs.late}})];
+    let mut evs = vec![json!({"ev":"reset","case":case,"hdr":{"src":cs.src,"logline":logline[cs.log],"n":n,"big":lf.big,"sort":cs.sort,"kind":cs.kind,"late":cs.late}})];
     let conn = match Conn::connect(port, Duration::from_secs(20)) {
         Ok(c) => c,
         Err(e) => {
@@ -469,12 +474,12 @@ fn run_srv_case(port: u16, case: usize, cs: &SrvCase, logs: &[LogFile], logline:
             return evs;
         }
     };
-    let mut s = Sess { conn, evs, big: lf.big > 0, orig: lf.orig.clone(), txt: None, file_msgs: 0, data_frames: 0, sentinel: 0, dead: false };
+    let mut s = Sess { conn, evs, big: lf.big > 0, orig: lf.orig.clone(), pad: lf.pad.clone(), txt: None, file_msgs: 0, data_frames: 0, sentinel: 0, dead: false };
     let fail = |s: &mut Sess, what: &str, t: Option<String>| {
         s.push(json!({"ev":"unexpected_reply","to":what,"text":trunc(&t.unwrap_or_default(), 200)}));
     };
     'run: {
-        let r = s.cmd(&format!("open {}", json!({"files":[lf.path]})));
+        let r = s.cmd(&format!("open {}", if cs.sort { json!({"files":[lf.path],"sort":true}) } else { json!({"files":[lf.path]}) }));
         if !r.as_deref().map(|t| t.starts_with("ok:")).unwrap_or(false) {
             fail(&mut s, "open", r);
             break 'run;
@@ -497,12 +502,21 @@ fn run_srv_case(port: u16, case: usize, cs: &SrvCase, logs: &[LogFile], logline:
             }
         };
         s.push(json!({"ev":"ok_stream","id":id,"kind":cs.kind,"filt":f_abs(&cs.filt),"win":[sat(cs.win.0), sat(cs.win.1)],"parsed":parsed}));
+        if cs.stall_ms > 0 {
+            std::thread::sleep(Duration::from_millis(cs.stall_ms)); // a client that does not read for a while (the server must wait, not drop)
+        }
+        let stall_after_change = if cs.stall_mid { cs.stall_ms } else { 0 };
         let change = |s: &mut Sess, id: &mut u64, w: (u64, u64)| -> bool {
             let r = s.cmd(&format!("stream_change_window {} {},{}", id, w.0, w.1));
             match r.as_deref().and_then(parse_ok_json) {
                 Some((old, v)) if v["id"].is_u64() => {
                     let new = v["id"].as_u64().unwrap();
-                    s.push(json!({"ev":"ok_change","old":old,"id":new,"win":[sat(v["window"][0].as_u64().unwrap_or(0)), sat(v["window"][1].as_u64().unwrap_or(0))]}));
+                    // the window REQUESTED (what the statement is about); the reply's echo of it is recorded for information only
+                    s.push(json!({"ev":"ok_change","old":old,"id":new,"win":[sat(w.0), sat(w.1)],
+                                  "echo":[sat(v["window"][0].as_u64().unwrap_or(0)), sat(v["window"][1].as_u64().unwrap_or(0))]}));
+                    if stall_after_change > 0 {
+                        std::thread::sleep(Duration::from_millis(stall_after_change)); // a client that does not read for a while
+                    }
                     *id = new;
                     true
                 }
@@ -737,11 +751,12 @@ fn srv_main(a: &Args) {
                         t_ms: 1000 + 10 * i as u64,
                         mcnt: i as u8,
                         text: format!("tiny log message number {}", i),
+                        ts_dms: 0,
                     })
                     .collect();
                 let path = format!("{}/tiny-{}.dlt", dir, logs.len());
                 write_log(&path, &msgs);
-                { let orig = Arc::new(msgs.clone()); logs.push(LogFile { path, msgs, big: 0, orig }); }
+                { let orig = Arc::new(msgs.clone()); logs.push(LogFile { path, msgs, big: 0, orig, pad: Arc::new(String::new()) }); }
                 logs.len() - 1
             });
             let filt = parse_filters(&v["filt"]);
@@ -760,7 +775,7 @@ fn srv_main(a: &Args) {
                 searches: v["search"].as_array().map(|a| a.iter().map(|s| (s[0].as_u64().unwrap(), s[1].as_u64().unwrap(), sf.clone())).collect()).unwrap_or_default(),
                 lookups: v["lookups"].as_array().map(|a| a.iter().map(|s| (s[0].as_str().unwrap().to_string(), s[1].as_u64().unwrap())).collect()).unwrap_or_default(),
                 pred: v["pred"].clone(),
-                binary: true, extreme: false,
+                sort: false, stall_ms: 0, stall_mid: false, binary: true, extreme: false,
             });
         }
     }
@@ -776,7 +791,7 @@ fn srv_main(a: &Args) {
         let msgs = if k <= 1 { gen_log(&mut rng, n, &ECUS, &APIDS, &CTIDS) } else { gen_log_dt(&mut rng, n, &ECUS, &APIDS, &CTIDS, 100, 400) };
         let path = format!("{}/log-{}.dlt", dir, k);
         write_log(&path, &msgs);
-        { let orig = Arc::new(msgs.clone()); logs.push(LogFile { path, msgs, big: 0, orig }); }
+        { let orig = Arc::new(msgs.clone()); logs.push(LogFile { path, msgs, big: 0, orig, pad: Arc::new(String::new()) }); }
     }
     for k in 0..n_random {
         // one third of the sessions on the small / burst logs, two thirds on the logs that stream through
@@ -826,7 +841,7 @@ fn srv_main(a: &Args) {
             searches,
             lookups,
             pred: Value::Null,
-            binary: !rng.chance(1, 5), extreme: false,
+            sort: rng.chance(1, 6), stall_ms: 0, stall_mid: false, binary: !rng.chance(1, 5), extreme: false,
         });
     }
     // (C) windows of thousands to tens of thousands of messages on a big log whose ecu / apid / ctid repeat periodically (more
@@ -838,11 +853,11 @@ fn srv_main(a: &Args) {
     if n_big > 0 {
         let (pe, pa, pc) = (["ECUA", "ECUB"], ["APIA", "APIB", "APIC"], ["CTIA", "CTIB", "CTIC", "CTID", "CTIE"]);
         let msgs: Vec<GenMsg> = (0..n_big as usize)
-            .map(|i| GenMsg { ecu: pe[i % 2].into(), apid: pa[i % 3].into(), ctid: pc[i % 5].into(), t_ms: 1000 + i as u64, mcnt: (i % 256) as u8, text: format!("m{}", i) })
+            .map(|i| GenMsg { ecu: pe[i % 2].into(), apid: pa[i % 3].into(), ctid: pc[i % 5].into(), t_ms: 1000 + i as u64, mcnt: (i % 256) as u8, text: format!("m{}", i), ts_dms: 0 })
             .collect();
         let path = format!("{}/biglog.dlt", dir);
         write_log(&path, &msgs);
-        logs.push(LogFile { path, msgs: vec![], big: n_big, orig: Arc::new(msgs) });
+        logs.push(LogFile { path, msgs: vec![], big: n_big, orig: Arc::new(msgs), pad: Arc::new(String::new()) });
         let li = logs.len() - 1;
         let unf: Vec<F> = vec![];
         let pos = vec![lit("pos", true, "ECUA", "", "")];                                                   // 1/2
@@ -853,7 +868,7 @@ fn srv_main(a: &Args) {
         let none = vec![lit("pos", true, "", "NONE", "")];
         let mk = |kind: &str, late: bool, binary: bool, filt: &Vec<F>, win: (u64, u64), changes: Vec<(u64, u64)>| SrvCase {
             src: "big".into(), log: li, kind: kind.into(), late, paused_query: false, filt: filt.clone(), win, early_change: None, changes,
-            searches: vec![], lookups: vec![], pred: Value::Null, binary, extreme: false,
+            searches: vec![], lookups: vec![], pred: Value::Null, sort: false, stall_ms: 0, stall_mid: false, binary, extreme: false,
         };
         cases.push(mk("query", true, true, &unf, (0, n_big), vec![]));
         cases.push(mk("query", true, true, &all, (0, n_big + 10), vec![]));
@@ -869,6 +884,70 @@ fn srv_main(a: &Args) {
         cases.push(mk("query", true, false, &event, (0, 6000), vec![]));
         cases.push(mk("stream", true, false, &neg, (3, 5000), vec![(4500, 9000)]));
         cases.push(mk("stream", false, false, &unf, (10, 4200), vec![]));
+    }
+    // (E) a small log in which some messages were delivered late (reception order = file order, but their timestamp is earlier
+    //     by >= 2 positions): opened with sort true / false x filter sets, the whole stream delivered, then lookups for EVERY
+    //     index (and, sorted, for every message time): positions are positions in STREAM order
+    if a.has("--sorted") {
+        let mut msgs = gen_log(&mut rng, 40, &ECUS, &APIDS, &CTIDS);
+        for p in [8usize, 17, 18, 30, 36] {
+            msgs[p].ts_dms = msgs[p - 3].t_ms * 10 - 5; // between the timestamps of the messages 4 and 3 positions earlier
+        }
+        let path = format!("{}/sortlog.dlt", dir);
+        write_log(&path, &msgs);
+        let n = msgs.len() as u64;
+        let times: Vec<u64> = msgs.iter().map(|g| g.ts() / 10).collect();
+        { let orig = Arc::new(msgs.clone()); logs.push(LogFile { path, msgs, big: 0, orig, pad: Arc::new(String::new()) }); }
+        let li = logs.len() - 1;
+        let fsets: Vec<Vec<F>> = vec![vec![], vec![lit("pos", true, "ECUA", "", "")], vec![lit("event", true, "", "", "CTIA"), lit("event", true, "", "", "CTIB")],
+                                      vec![lit("neg", true, "", "APIB", ""), lit("pos", true, "ECUA", "", ""), lit("pos", true, "ECUB", "", "")]];
+        for sort in [true, false] {
+            for (fi, filt) in fsets.iter().enumerate() {
+                let mut lookups: Vec<(String, u64)> = (0..=n).map(|i| ("index".to_string(), i)).collect();
+                if sort {
+                    // (unsorted, the messages are not ordered by time: a time lookup has no defined answer there)
+                    for t in &times {
+                        lookups.push(("time".to_string(), *t));
+                        lookups.push(("time".to_string(), *t + 1));
+                    }
+                }
+                cases.push(SrvCase {
+                    src: "sorted".into(), log: li, kind: if fi == 3 { "query".into() } else { "stream".into() }, late: fi != 1, paused_query: false, filt: filt.clone(),
+                    win: (0, n + 5), early_change: None, changes: if fi == 2 { vec![(3, 20)] } else { vec![] }, searches: vec![], lookups: if fi == 3 { vec![] } else { lookups },
+                    pred: Value::Null, sort, stall_ms: 0, stall_mid: false, binary: fi != 2 || sort, extreme: false,
+                });
+            }
+        }
+    }
+    // (F) a client that stops reading: a log with long payloads (a full binary stream is tens of MB, more than the socket buffers
+    //     hold), the client does not read for some seconds right after the announcing reply (and again mid-stream), then reads
+    //     everything: exactly the requested window must still arrive, once, in order (C13: a slow consumer delays, never drops)
+    let n_fat = a.num("--fat", 0);
+    if n_fat > 0 {
+        let (pe, pa, pc) = (["ECUA", "ECUB"], ["APIA", "APIB", "APIC"], ["CTIA", "CTIB", "CTIC", "CTID", "CTIE"]);
+        let pad: String = " long payload".repeat(a.num("--fat-pad", 150) as usize);
+        let msgs: Vec<GenMsg> = (0..n_fat as usize)
+            .map(|i| GenMsg { ecu: pe[i % 2].into(), apid: pa[i % 3].into(), ctid: pc[i % 5].into(), t_ms: 1000 + i as u64, mcnt: (i % 256) as u8, text: format!("m{}", i), ts_dms: 0 })
+            .collect();
+        let path = format!("{}/fatlog.dlt", dir);
+        {
+            let padded: Vec<GenMsg> = msgs.iter().map(|g| { let mut p = g.clone(); p.text.push_str(&pad); p }).collect();
+            write_log(&path, &padded);
+        }
+        logs.push(LogFile { path, msgs: vec![], big: n_fat, orig: Arc::new(msgs), pad: Arc::new(pad) });
+        let li = logs.len() - 1;
+        let stalls: Vec<(u64, bool, Vec<F>)> = if a.has("--all-stalls") {
+            vec![(3000, true, vec![]), (6000, false, vec![lit("neg", true, "", "APIB", "")]), (6000, true, vec![]), (3000, false, vec![lit("event", true, "ECUA", "", "")])]
+        } else {
+            vec![(3000, true, vec![])]
+        };
+        for (ms, mid, filt) in stalls {
+            cases.push(SrvCase {
+                src: "stalling-client".into(), log: li, kind: "stream".into(), late: true, paused_query: false, filt, win: (0, n_fat + 1), early_change: None,
+                changes: if mid { vec![(10, n_fat)] } else { vec![] }, searches: vec![], lookups: vec![], pred: Value::Null, sort: false, stall_ms: ms, stall_mid: mid,
+                binary: true, extreme: false,
+            });
+        }
     }
     // (D) numeric extreme classes for every numeric parameter (window start / end, start_idx, max_results, index, time_ms) on the
     //     small log (if present): three sessions per class so that a command that kills the connection (or the process)
@@ -888,7 +967,7 @@ fn srv_main(a: &Args) {
         for (name, v, t) in &classes {
             let mk = |win: (u64, u64), changes: Vec<(u64, u64)>, searches: Vec<(u64, u64, Vec<F>)>, lookups: Vec<(String, u64)>, filt: &Vec<F>| SrvCase {
                 src: format!("extreme:{}", name), log: li, kind: "stream".into(), late: true, paused_query: false, filt: filt.clone(), win,
-                early_change: None, changes, searches, lookups, pred: Value::Null, binary: true, extreme: true,
+                early_change: None, changes, searches, lookups, pred: Value::Null, sort: false, stall_ms: 0, stall_mid: false, binary: true, extreme: true,
             };
             cases.push(mk((0, *v), vec![(*v, n + 5), (2, *v)], vec![(*v, 3, sf.clone())], vec![("index".into(), *v)], &filt));
             cases.push(mk((*v, n + 5), vec![], vec![], vec![("time_abs".into(), *t)], &vec![]));
@@ -908,7 +987,7 @@ fn srv_main(a: &Args) {
     let mut servers: Vec<Server> = throttles.iter().enumerate().map(|(i, t)| Server::start(&adlt, &work, &format!("c16-{}", i), if t == "none" { None } else { Some(t) })).collect();
     let ports: Vec<u16> = servers.iter().map(|s| s.port).collect();
     // the big log is served by an additional process without parser throttle
-    if n_big > 0 {
+    if n_big > 0 || n_fat > 0 {
         servers.push(Server::start(&adlt, &work, "c16-big", None));
     }
     let big_port = servers.last().unwrap().port;
@@ -923,7 +1002,7 @@ fn srv_main(a: &Args) {
             .msgs
             .iter()
             .enumerate()
-            .map(|(i, g)| json!({"i": i, "rx": g.t_ms, "ts": g.t_ms * 10, "e": g.ecu, "a": g.apid, "c": g.ctid, "mc": g.mcnt, "h": hash31(g.text.as_bytes())}))
+            .map(|(i, g)| json!({"i": i, "rx": g.t_ms, "ts": g.ts(), "e": g.ecu, "a": g.apid, "c": g.ctid, "mc": g.mcnt, "h": hash31(g.text.as_bytes())}))
             .collect();
         if lf.big > 0 {
             t.ev(json!({"ev":"log","name":k,"n":lf.big,"period":{"e":["ECUA","ECUB"],"a":["APIA","APIB","APIC"],"c":["CTIA","CTIB","CTIC","CTID","CTIE"]},"msgs":[]}));
